@@ -903,7 +903,28 @@ func orcResolve(op gen.EditOp, st *orcState) (orcCall, bool) {
 			if e == nil {
 				return c, false
 			}
-			c.Key, c.Variant = e.AbsID(), "edge"
+			c.Variant = "edge"
+			if sub%2 == 0 {
+				// half of the time the first of a group of parallel connections (the later ones
+				// must be renumbered, including their explicit index keys)
+				var firsts []*d2graph.Edge
+				for _, x := range edges {
+					if x.Index != 0 {
+						continue
+					}
+					for _, y := range edges {
+						if y != x && y.Src == x.Src && y.Dst == x.Dst && y.SrcArrow == x.SrcArrow && y.DstArrow == x.DstArrow {
+							firsts = append(firsts, x)
+							break
+						}
+					}
+				}
+				if len(firsts) > 0 {
+					e = firsts[op.Sel[0]%len(firsts)]
+					c.Variant = "edge-first-of-parallel-group"
+				}
+			}
+			c.Key = e.AbsID()
 		case v <= 7:
 			o := obj(op.Sel[0])
 			if o == nil {
